@@ -20703,12 +20703,12 @@ int cg_delete_node(const char *node_name)
             CGNS_DELETE_SHIFT(nuser_data, user_data, cgi_free_user_data)
 
      /* Case 2: node_label = can only occur once under parent: */
+        else if (strcmp(node_label,"BaseIterativeData_t")==0)
+            CGNS_DELETE_CHILD(biter, cgi_free_biter)
         else if (strcmp(node_name,"SimulationType")==0) {
         parent->type = CGNS_ENUMV( SimulationTypeNull );
             parent->type_id = 0;
         }
-        else if (strcmp(node_label,"BaseIterativeData_t")==0)
-            CGNS_DELETE_CHILD(biter, cgi_free_biter)
         else if (strcmp(node_name,"GlobalConvergenceHistory")==0)
             CGNS_DELETE_CHILD(converg, cgi_free_converg)
         else if (strcmp(node_name,"FlowEquationSet")==0)
@@ -20755,12 +20755,12 @@ int cg_delete_node(const char *node_name)
             CGNS_DELETE_SHIFT(nzconn, zconn, cgi_free_zconn)
         else if (strcmp(node_label,"ZoneSubRegion_t")==0)
             CGNS_DELETE_SHIFT(nsubreg, subreg, cgi_free_subreg)
+        else if (strcmp(node_label,"ZoneIterativeData_t")==0)
+            CGNS_DELETE_CHILD(ziter, cgi_free_ziter)
         else if (strcmp(node_name,"ZoneBC")==0)
             CGNS_DELETE_CHILD(zboco, cgi_free_zboco)
         else if (strcmp(node_name,"Ordinal")==0)
             parent->ordinal=0;
-        else if (strcmp(node_label,"ZoneIterativeData_t")==0)
-            CGNS_DELETE_CHILD(ziter, cgi_free_ziter)
         else if (strcmp(node_name,"ReferenceState")==0)
             CGNS_DELETE_CHILD(state, cgi_free_state)
         else if (strcmp(node_name,"DataClass")==0)
